@@ -24,6 +24,7 @@ func checkC04(c *Ctx) {
 	r045(c)
 	// at most one service per (host, prefix): otherwise which one answers depends on map iteration order (shared with C05)
 	r053(c, "R04.6 one-owner-per-host-and-prefix")
+	rPrefixNormalForm(c, "R04.7 prefix-normal-form")
 }
 
 // fullRangeElem: v is the element of a forward, complete range loop over a
